@@ -47,3 +47,31 @@ klass('Future', {}, lib=True)
 
 klass('TorchDistributedCommunicator', {})
 klass('KFACBaseLayer', {})
+
+# ---------------------------------------------------------------- tensors / modules / layers (Tier B1)
+from pyvc.tensors import KMat, KShape, KDType, KDevice   # noqa: E402  (declares Tensor/Future)
+import pyvc.distmodel  # noqa: E402,F401
+
+T_ = KRef('Tensor')
+klass('Module', {'training': KBool, 'fwd_hooks': KInt, 'bwd_hooks': KInt, 'weight': T_, 'bias': T_,
+                 'kernel_size': KTuple(KInt, KInt), 'stride': KTuple(KInt, KInt), 'padding': KTuple(KInt, KInt),
+                 'in_channels': KInt, 'out_channels': KInt, 'cname': KStr}, lib=True)
+klass('ModuleHelper', {'module': KRef('Module')})
+klass('KFACBaseLayer', {
+    'module': KRef('ModuleHelper'), 'tdc': KRef('TorchDistributedCommunicator'),
+    'allreduce_method': KRef('AllreduceMethod'), 'factor_dtype': KDType, 'grad_scaler': KDyn,
+    'inv_dtype': KDType, 'symmetry_aware': KBool, 'eps': KReal, 'symmetric_factors': KBool,
+    '_a_batch': T_, '_g_batch': T_, '_a_count': KInt, '_g_count': KInt,
+    '_a_factor': KRef(None), '_g_factor': KRef(None), '_grad': KRef(None),      # Tensor | Future | None
+})
+klass('KFACEigenLayer', {'prediv_eigenvalues': KBool, '_qa': KRef(None), '_qg': KRef(None), '_da': KRef(None),
+                         '_dg': KRef(None), '_dgda': KRef(None)})
+klass('KFACInverseLayer', {'_a_inv': KRef(None), '_g_inv': KRef(None)})
+klass('TorchDistributedCommunicator', {
+    '_bucket_cap_mb': KReal,
+    '_allreduce_buckets': KDict(KSetInt, KRef('AllreduceTensorBucket'), default='none'),
+})
+klass('AllreduceTensorBucket', {'_group': KRef('ProcessGroup'), '_tensors': KList(T_), '_futures': KList(KRef('Future')),
+                                '_size': KInt, '_communicated': KBool})
+for _e in ('AllreduceMethod', 'AssignmentStrategy', 'ComputeMethod', 'DistributedStrategy'):
+    klass(_e, {})
